@@ -343,8 +343,11 @@ pub fn parse_signal<S: Signals>(
     signal_spec: &str,
     allow_sig_prefix: bool,
 ) -> Option<RawNumber> {
-    // Try parsing as a number first
-    if let Ok(number) = signal_spec.parse() {
+    // Try parsing as a number first. A signal number is an unsigned decimal
+    // integer, but `str::parse` would accept a leading sign.
+    if signal_spec.starts_with(|c: char| c.is_ascii_digit())
+        && let Ok(number) = signal_spec.parse()
+    {
         return Some(number);
     }
 
